@@ -86,11 +86,69 @@ def _looks_up(fn, cont):
     return False
 
 
+def _skip_guard(fn, cont_txt):
+    """(test, expression the looked-up entry is compared with or None, statements skipped) when the function has a statement
+    `if <lookup of cont_txt ...>: return` whose test reads the container; else None"""
+    def reads_cont(e):
+        for n in ast.walk(e):
+            if isinstance(n, ast.Subscript) and norm(n.value) == cont_txt:
+                return n
+            if isinstance(n, ast.Call) and isinstance(n.func, ast.Attribute) and n.func.attr == 'get' and norm(n.func.value) == cont_txt:
+                return n
+            if isinstance(n, ast.Compare) and any(isinstance(o, ast.In) for o in n.ops) and any(norm(c) == cont_txt for c in n.comparators):
+                return n
+        return None
+    for owner in ast.walk(fn):
+        for f in ('body', 'orelse'):
+            blk = getattr(owner, f, None)
+            if not isinstance(blk, list):
+                continue
+            for i, s_ in enumerate(blk):
+                if not (isinstance(s_, ast.If) and s_.body and isinstance(s_.body[-1], ast.Return) and not s_.orelse):
+                    continue
+                look = reads_cont(s_.test)
+                if look is None:
+                    continue
+                other = None
+                for c in ast.walk(s_.test):
+                    if isinstance(c, ast.Compare) and len(c.ops) == 1 and isinstance(c.ops[0], ast.Eq):
+                        if c.left is look:
+                            other = c.comparators[0]
+                        elif c.comparators[0] is look:
+                            other = c.left
+                rest = blk[i + 1:]
+                if rest:
+                    return s_.test, other, rest
+    return None
+
+
 def _judge(run, rule, mi, name, fn, target, value, st, cont_txt, kind, edges, params, memo=True):
     run.subject(rule)
     ku = _uses(target.slice, params, edges)
     vu = _uses(value, params, edges)
     kd, vd = {p for p, a in ku}, {p for p, a in vu}
+    # "already done" memos: `if cont.get(key) == fresh: return` skips the rest of the function.  The entry is compared with the fresh
+    # value, so what the value depends on is covered by the comparison; what must be in the key is everything the *skipped effect*
+    # (the statements after the test) depends on -- e.g. the directory a file is written to.
+    skip = _skip_guard(fn, cont_txt)
+    if skip is not None:
+        test, cmp_other, rest = skip
+        covered = kd | ({p for p, a in _uses(cmp_other, params, edges)} if cmp_other is not None else set())
+        eff = set()
+        for r_ in rest:
+            if r_ is st:
+                continue
+            eff |= {p for p, a in _uses(r_, params, edges)}
+        miss = sorted(eff - covered)
+        if miss:
+            run.fail(rule, '%s|%s|skip-memo-key:%s' % (mi.name, name, cont_txt), mi.relpath, test.lineno,
+                     "%s returns early when the %s container %s already holds the entry for key '%s' (%s), skipping the rest of its work, but "
+                     "that work also depends on the argument(s) %s, which are neither in the key nor compared: a call that differs only in %s "
+                     "is taken for a repetition and its effect never happens"
+                     % (name, kind, cont_txt, norm(target.slice), norm(test)[:60], miss, miss[0]))
+        else:
+            run.ok(rule, '%s skip-memo %s' % (name, cont_txt), "key and compared value cover %s" % sorted(eff))
+        return
     missing = sorted(vd - kd)
     if missing:
         run.fail(rule, '%s|%s|cache-key:%s' % (mi.name, name, cont_txt), mi.relpath, st.lineno,
@@ -804,6 +862,8 @@ def check_caches(run, modules, rule, functions=None, prog=None, zero_is_a_value=
                        'granularity the value uses (results depend on the arguments only)')
     nstores = 0
     ncont = 0
+    from .rules._purity import selfcheck_generic
+    selfcheck_generic()
     for mi in modules:
         containers = {n for n, v in mi.assigns.items() if _is_container(v)}
         ncont += len(containers)
@@ -832,8 +892,10 @@ def check_caches(run, modules, rule, functions=None, prog=None, zero_is_a_value=
                                 if isinstance(t, ast.Attribute) and isinstance(t.value, ast.Name) and t.value.id == 'self':
                                     inst.add(t.attr)
             ncont += len(inst)
+            meths_ = {f.name: f for f in cnode.body if isinstance(f, ast.FunctionDef) and not getattr(f, 'is_setter', False)}
             for f in cnode.body:
                 if isinstance(f, ast.FunctionDef):
+                    f._class_methods = meths_
                     fns.append(('%s.%s' % (cname, f.name), f, inst))
         for name, fn, inst in fns:
             if functions is not None and name not in functions:
@@ -886,6 +948,24 @@ def check_caches(run, modules, rule, functions=None, prog=None, zero_is_a_value=
                 run.fail(rule, '%s|%s|never-filled:%s' % (mi.name, name, nm_), mi.relpath, a_.lineno,
                          "%s creates '%s' empty and returns it without anything ever being added to it (no method call, subscript store or "
                          "hand-over touches it): the caller always receives the empty collection" % (name, nm_))
+            from .rules._purity import state_written_before_validation
+            for w_, fld_, g_ in state_written_before_validation(fn, getattr(fn, '_class_methods', None)):
+                nstores += 1
+                run.subject(rule)
+                run.fail(rule, '%s|%s|stored-before-validated:%s' % (mi.name, name, fld_), mi.relpath, w_.lineno,
+                         "%s assigns self.%s (%s) and only afterwards rejects the value (if %s: raise, line %d): when the test fails the caller "
+                         "sees the exception but the object keeps the rejected value and nothing that follows the guard (refresh, notification) "
+                         "has run, so the next operation computes with a state no accepted call produced"
+                         % (name, fld_, norm(w_)[:50], norm(g_.test)[:50], g_.lineno))
+            from .rules._purity import derived_from_aliased_input
+            for k_, loc_, par_, d_ in derived_from_aliased_input(fn):
+                nstores += 1
+                run.subject(rule)
+                run.fail(rule, '%s|%s|derived-from-alias:%s' % (mi.name, name, loc_), mi.relpath, k_.lineno,
+                         "%s keeps '%s', which may be the caller's own array (argument '%s' or a view / non-copying conversion of it), and also "
+                         "keeps a value computed from it in the same call (%s): when the caller later writes into that buffer the kept array "
+                         "changes and the value derived from it does not, so the object's state matches no assignment that was ever made"
+                         % (name, loc_, par_, norm(d_)[:60]))
             from .rules._purity import guards_contradicting_their_message
             for g_, why_ in guards_contradicting_their_message(fn):
                 nstores += 1
